@@ -62,7 +62,9 @@ def run(chk, tier):
     nrf, rfound = relfail.run(chk, P, ["distances.c"])
     chk.floor("R-RELFAIL", "call sites of release-on-failure functions", nrf, 4)
     chk.floor("R-RELFAIL", "release-on-failure functions discovered", len(rfound), 2)
-    chk.decided += ["an invalid depth (hwloc_get_depth_type failure) is rejected with EINVAL before anything is removed or returned",
+    chk.decided += ['objs, indexes, different_types and values are compacted together when objects disappear',
+                    'a distances handle is not used again after a backend call that released it failed',
+                    "an invalid depth (hwloc_get_depth_type failure) is rejected with EINVAL before anything is removed or returned",
                     "invalid kinds / unknown flags rejected with EINVAL before any effect (all words)", "*nr reports the number of matches even when the array is smaller (capacity dataflow)",
                     "bulk copies/compares of distances arrays have the allocation's extent", "transforms keep every non-switch object (guarded kill)",
                     "returned structures reference objects of this topology: every reader refreshes first; file/buffer export agree"]
